@@ -100,7 +100,7 @@ macro_rules! group_glue {
             };
             $crate::runner::replay_verdict(&case, |c| {
                 let _ = $crate::v::take_noncanon();
-                let got = match std::panic::catch_unwind(std::panic::AssertUnwindSafe(|| dispatch(c.bits, op, &c.args))) {
+                let got = match $crate::runner::guarded(|| dispatch(c.bits, op, &c.args)) {
                     Ok(v) => v,
                     Err(_) => $crate::v::V::Panic,
                 };
